@@ -252,6 +252,18 @@ def shard_strings(desc, rec):
     through_blocks(rec, rng)
 
 
+def _last_item(kind, b):
+    if kind in ("data3D", "force3D"):
+        return list(b.tracks)[-1]
+    if kind == "emg":
+        return list(b)[-1]
+    if kind == "platCal":
+        return [p_ for _, p_ in b.platforms][-1]
+    if kind == "optical":
+        return list(b.channels)[-1]
+    return list(b.events)[-1]
+
+
 def through_blocks(rec, rng):
     from .container import small_block_spec
     for kind, width in (("data3D", 256), ("emg", 256), ("force3D", 256), ("platCal", 256), ("events", 256),
@@ -267,11 +279,23 @@ def through_blocks(rec, rng):
                 for fld in fields:
                     spec2 = {**spec, key: [dict(it) for it in spec[key]]}
                     spec2[key][-1][fld] = label
-                    case = {"driver": "strings", "through": kind, "field": fld, "len": L, "ch": ch}
+                    # the text is either given to the constructor or assigned to the item's attribute afterwards
+                    # (after the item has been encoded once): what is written is the text the item carries *now*
+                    late = (L + len(fld) + ord(ch[0])) % 2 == 1
+                    case = {"driver": "strings", "through": kind, "field": fld, "len": L, "ch": ch, "assigned_later": late}
                     rec.case(case, True)
-                    rec.count("c13:through-block")
+                    rec.count("c13:through-block" + (":assigned-later" if late else ""))
                     try:
-                        b = lib.build(spec2, {})
+                        if late:
+                            spec0 = {**spec, key: [dict(it) for it in spec[key]]}
+                            spec0[key][-1][fld] = "first"
+                            b = lib.build(spec0, {})
+                            lib.enc(b)
+                            item = _last_item(kind, b)
+                            attr = {"label": "label", "lens": "lens_name", "type": "camera_type", "name": "camera_name"}[fld]
+                            setattr(item, attr, label)
+                        else:
+                            b = lib.build(spec2, {})
                         x = lib.enc(b)
                         err = None
                     except Exception as e:
